@@ -503,7 +503,10 @@ class E1:
                 e2[dest["l"]] = dv
                 return [(tg, e2, lb, ub, cons, enq)]
         if key == "std::ops::Try::branch" and argv and argv[0] is not TOP and argv[0][0] == "var":
-            return [out(("var", argv[0][1], TOP))]
+            # Result: Ok (0) -> Continue (0), Err (1) -> Break (1).  Option: None (0) -> Break (1), Some (1) -> Continue (0)
+            _res = (fr.get("resolved") or "") if fr else ""
+            is_option = "option::Option" in _res or any("option::Option" in (x or "") for x in ((fr or {}).get("substs") or []))
+            return [out(("var", (1 - argv[0][1]) if is_option else argv[0][1], TOP))]
         if key == "std::ops::FromResidual::from_residual":
             return [out(("var", 1, TOP))]
         # local callee touching the input: descend
